@@ -260,6 +260,74 @@ def gen_struct_case(rng, k, derive_trait):
     return c
 
 
+def gen_star_struct_case(rng, k):
+    """`.*` precision placeholders (implicit value `{:.*}`, explicit `{name:.*}` / `{N:.*}`) followed by further implicit
+    `{}` placeholders, the formatted values being fields of TYPE PARAMETERS: `.*` takes the next implicit argument as the
+    precision BEFORE the value, so every later `{}` moves on by one - for format_args! and for the bounds alike"""
+    c = Case(k)
+    tr, hty, hvals = rng.choice([("Display", "&'static str", ["\"hello\"", "\"ab\""]), ("Display", "i32", ["7", "-3"]),
+                                 ("LowerExp", "f64", ["12.5", "0.25"]), ("UpperExp", "f64", ["1234.5"]), ("Display", "f64", ["2.75"])])
+    l = LETTER[tr]
+    named = rng.random() < 0.4
+    v, p, h = ("val", "prec", "other") if named else ("_0", "_1", "_2")
+    prec = rng.choice(["*%s" % p, "*%s" % p, "2", "1usize"])
+    shape = rng.randrange(5)
+    if shape == 0:
+        lit, args = "{:.*%s}" % l, [prec, v]
+    elif shape == 1:
+        lit, args = "{:.*%s} <{%s}>" % (l, ":" + l if l else ""), [prec, v, h]
+    elif shape == 2:
+        lit, args = "{%s:.*%s} [{%s}]" % (v, l, ":" + l if l else ""), [prec, h]
+    elif shape == 3:
+        lit, args = "{2:.*%s} [{%s}]" % (l, ":" + l if l else ""), [prec, h, v]
+    else:
+        lit, args = "{%s}|{x:.*%s}|{%s}" % (":" + l if l else "", l, ":" + l if l else ""), [h, prec, v, "x = %s" % v]
+    an = F.ATTR_OF[tr]
+    fields = [(v, "G"), (p, "usize"), (h, "H")]
+    body = (" { %s }" % ", ".join("%s: %s" % f for f in fields)) if named else "(%s);" % ", ".join(t for _, t in fields)
+    c.decl = "#[derive(derive_more::%s)] #[%s(%s)] pub struct St<G, H>%s" % (tr, an, ", ".join([F.rust_lit(lit)] + args), body)
+    vals = [rng.choice(["3.14159", "-0.5", "100.0"]), rng.choice(["0", "1", "3"]), rng.choice(hvals)]
+    c.value = ("St::<f64, %s> { %s }" % (hty, ", ".join("%s: %s" % (f[0], x) for f, x in zip(fields, vals)))) if named else \
+        "St::<f64, %s>(%s)" % (hty, ", ".join(vals))
+    mem = (lambda i: fields[i][0]) if named else (lambda i: str(i))
+    binds = " ".join("let %s = &__v.%s;" % (fields[i][0], mem(i)) for i in range(3))
+    reference = "{ %s format!(%s) }" % (binds, ", ".join([F.rust_lit(lit)] + args))
+    c.obs.append(("plain", "format!(\"{%s}\", __v)" % (":" + l if l else ""), reference))
+    c.meta = {"lit": lit, "args": args, "star": True, "decl": c.decl}
+    return c
+
+
+NESTED_GENERIC_ARGS = [
+    # (fields, argument expression with nested generic arguments closed by a tight `>>` / `>>>`, same expression over __v, letter)
+    ("", "core::mem::size_of::<Result<u32, Option<u32>>>()", None, ""),
+    ("", "core::mem::size_of::<Option<Result<u8, Vec<u8>>>>()", None, ""),
+    ("(u8)", "[*_0, 2].iter().map(|x| (*x, vec![*x])).collect::<std::collections::BTreeMap<u8, Vec<u8>>>().len()",
+     "[__v.0, 2].iter().map(|x| (*x, vec![*x])).collect::<std::collections::BTreeMap<u8, Vec<u8>>>().len()", ""),
+    ("(u8)", "Ok::<u8, Option<u8>>(*_0)", "Ok::<u8, Option<u8>>(__v.0)", "?"),
+    ("(u8)", "Vec::<Option<Vec<u8>>>::from([Some(vec![*_0])]).len()", "Vec::<Option<Vec<u8>>>::from([Some(vec![__v.0])]).len()", ""),
+    ("(u8)", "Some::<Result<u8, Option<u8>>>(Ok(*_0))", "Some::<Result<u8, Option<u8>>>(Ok(__v.0))", "?"),
+]
+
+
+def gen_nested_generic_case(rng, k):
+    """a single bare placeholder whose only argument is an expression containing nested generic arguments written
+    tight (`::<A<B, C<D>>>()`): ONE argument, so the attribute delegates and the caller's flags reach that value"""
+    c = Case(k)
+    fields, expr, vexpr, letter = rng.choice(NESTED_GENERIC_ARGS)
+    tr = "Debug" if letter == "?" else "Display"
+    al = rng.random() < 0.3
+    lit = ("{n%s}" if al else "{%s}") % (":" + letter if letter else "")
+    c.decl = "#[derive(derive_more::%s)] #[%s(%s, %s%s)] pub struct SizeOf%s;" % (
+        tr, F.ATTR_OF[tr], F.rust_lit(lit), "n = " if al else "", expr, fields)
+    c.value = "SizeOf(%s)" % rng.choice(["7", "200"]) if fields else "SizeOf"
+    inner = vexpr or expr
+    c.obs.append(("plain", "format!(\"{%s}\", __v)" % (":" + letter if letter else ""), "format!(\"{%s}\", %s)" % (":" + letter if letter else "", inner)))
+    for sp in rng.sample([x for x in OUTER_SPECS if not any(ch in x for ch in "xXobeE?")], 5):
+        c.obs.append(("flags-pass:" + sp, "format!(\"{:%s%s}\", __v)" % (sp, letter), "format!(\"{:%s%s}\", %s)" % (sp, letter, inner)))
+    c.meta = {"lit": lit, "args": [expr], "transparent": True, "attr": True, "nested_generics": True}
+    return c
+
+
 def gen_enum_case(rng, k, derive_trait, with_flags=False):
     """C07: enum-level (shared) format vs the documented meaning.  with_flags (C05): caller's flags on every variant"""
     c = Case(k)
@@ -267,6 +335,9 @@ def gen_enum_case(rng, k, derive_trait, with_flags=False):
     nvar = rng.randrange(1, 4)
     rename = rng.choice([None, None, "snake_case", "UPPERCASE", "kebab-case"]) if derive_trait == "Display" else None
     mode = rng.choice(["none", "default", "wrap_ph", "wrap_ph", "wrap_arg", "wrap_twice", "bare_variant", "bare_variant", "wrap_field"])
+    if derive_trait in ("Display", "LowerExp", "UpperExp") and rng.random() < 0.1:
+        # `_variant` reachable only through an implicit `{}` AFTER an explicit-value `.*` placeholder
+        mode = "wrap_star"
     if derive_trait == "Debug":
         mode = "none"            # an enum-level #[debug("...")] is rejected (C07); variant-level ones are C02/C05's
     # a bare `_variant` placeholder has three spellings: by name, as the sole positional argument, as an aliased argument
@@ -275,21 +346,24 @@ def gen_enum_case(rng, k, derive_trait, with_flags=False):
     # "wrap_field": the enum-level format wraps AND names the first field of every variant itself, under Debug - a trait
     # the variants' own formats need not use for that field
     shared_lit = {"none": None, "default": rng.choice(["dflt", "dflt", "{{unknown}}", "set: {{}}", "}}a{{", "é {{x}} "]), "wrap_ph": "<{_variant}>", "wrap_arg": "[{}]",
-                  "wrap_twice": "{_variant}/{0}", "bare_variant": bare_lit,
+                  "wrap_twice": "{_variant}/{0}", "bare_variant": bare_lit, "wrap_star": None,
                   "wrap_field": rng.choice(["{_variant} (raw: {_0:?})", "{_0:?} -> {_variant}", "{1:?}|{0}"])}[mode]
     shared_args = {"wrap_arg": ["_variant"], "wrap_twice": ["_variant"], "bare_variant": bare_args}.get(mode, [])
+    if mode == "wrap_star":
+        shared_lit, shared_args = rng.choice([("{_0:.*} [{}]", ["1", "_variant"]), ("<{}> {x:.*}|{}", ["_variant", "2", "_variant", "x = _0"]),
+                                              ("{2:.*}: {}", ["0", "_variant", "_0"])])
     if mode == "wrap_field" and shared_lit == "{1:?}|{0}":
         shared_args = ["_variant", "_0"]
     variants = []
     for i in range(nvar):
         vk = rng.choice(["unit", "one", "multi", "named"])
-        if mode == "wrap_field":
+        if mode in ("wrap_field", "wrap_star"):
             vk = rng.choice(["one", "one", "multi"])        # every variant needs a `_0`
         vname = ["Alpha", "BetaGamma", "r#Type"][i]
         if vk == "unit":
             kind, fs = "unit", []
         elif vk == "one":
-            kind = rng.choice(["unnamed", "named"]) if mode != "wrap_field" else "unnamed"
+            kind = rng.choice(["unnamed", "named"]) if mode not in ("wrap_field", "wrap_star") else "unnamed"
             fs = [{"name": "a" if kind == "named" else None, "t": rng.choice([t for t, (_, _, tr) in TYPES.items() if derive_trait in tr])}]
         else:
             kind, fs = gen_fields(rng, None)
@@ -297,10 +371,12 @@ def gen_enum_case(rng, k, derive_trait, with_flags=False):
                 kind = "named"
                 for j, f in enumerate(fs):
                     f["name"] = f["name"] or ["a", "b", "c"][j]
-            elif mode == "wrap_field":
+            elif mode in ("wrap_field", "wrap_star"):
                 kind = "unnamed"
                 for f in fs:
                     f["name"] = None
+        if mode == "wrap_star":
+            fs[0]["t"] = "f64"                               # `_0` is formatted with a precision
         own = None
         # a variant needs a format of its own when nothing else gives it a text: several fields, a field whose type lacks
         # the derived trait, or (non-Display derives) no field at all - unless the enum-level format is a plain default,
@@ -310,6 +386,8 @@ def gen_enum_case(rng, k, derive_trait, with_flags=False):
             (len(fs) == 1 and derive_trait not in TYPES[fs[0]["t"]][2])
         # (Debug: a variant without a format of its own prints what std's derive prints for it - any mixture and order of
         #  variants with and without a format)
+        if mode == "wrap_star":
+            need_own = True       # (were `_variant` not seen, a format-less variant would not even compile)
         if need_own or rng.random() < (0.5 if derive_trait == "Debug" else 0.4):
             if fs:
                 lit, args, info = gen_literal(rng, kind, fs, derive_trait, bare_p=0.25, allow_self=False)
@@ -320,7 +398,7 @@ def gen_enum_case(rng, k, derive_trait, with_flags=False):
     # one attribute-less single-field variant may be of a type parameter (its bound has to be inferred by the derive:
     # under a wrapping enum-level format too, where the field is printed through `_variant`)
     generic = None
-    cand = [v for v in variants if len(v["fs"]) == 1 and not v["own"]] if derive_trait != "Debug" else []
+    cand = [v for v in variants if len(v["fs"]) == 1 and not v["own"]] if derive_trait != "Debug" and mode != "wrap_star" else []
     gcand = list(variants) if mode == "wrap_field" else []
     if gcand and rng.random() < 0.7:
         # a variant whose first field is of a type parameter, with a format of its own that names `_0` under a trait
@@ -381,7 +459,7 @@ def gen_enum_case(rng, k, derive_trait, with_flags=False):
             vt = "String::from(%s)" % F.rust_lit(do_rename(nm, rename) if rename else nm)
         else:
             vt = None
-        wraps = mode in ("wrap_ph", "wrap_arg", "wrap_twice", "bare_variant", "wrap_field")
+        wraps = mode in ("wrap_ph", "wrap_arg", "wrap_twice", "bare_variant", "wrap_field", "wrap_star")
         if wraps:
             if vt is None:
                 expected = None          # multi-field without attribute: must be rejected at compile time
@@ -400,7 +478,7 @@ def gen_enum_case(rng, k, derive_trait, with_flags=False):
             if mode == "bare_variant" and derive_trait == "Display":
                 effective = "none"          # a bare `{_variant}` of the derived trait is no attribute at all
             for sp in rng.sample([x for x in OUTER_SPECS if not any(ch in x for ch in "xXobeE?")], 3 if with_flags is True else int(with_flags)):
-                if effective in ("wrap_ph", "wrap_arg", "wrap_twice", "bare_variant", "wrap_field"):
+                if effective in ("wrap_ph", "wrap_arg", "wrap_twice", "bare_variant", "wrap_field", "wrap_star"):
                     flag_obs.append(("flags-inert:" + sp, sp, expected))
                 elif v["own"]:
                     lit, args, info = v["own"]
